@@ -664,7 +664,7 @@ pub fn run(ctx: &Ctx) -> Value {
     tw.finish();
     // ---- 2. POSIX rules through the rule reader alone and through TZ=<rule> --------------------------------
     let mut tr = Tw::new(&ctx.out, "Trace_TzRule", ctx.t(1_500, 30_000));
-    let n_rules = ctx.t(100, 1_200);
+    let n_rules = ctx.t(100, 1_000);
     let (mut rules, mut rule_public, mut out_of_scope) = (0usize, 0usize, 0usize);
     for i in 0..(WITNESS_RULES.len() + n_rules) {
         let witness = i < WITNESS_RULES.len();
